@@ -296,5 +296,7 @@ m("C06", "C06-api-resume-keeps-old-convention", "R06-resumeapi:(*LState).Resume:
 
 m("C04", "C04-arith-handler-before-conversion", "R04-events:objectArith:converts-before-looking-for-a-handler", ("vm.go", "\tif v1, ok1 := lnum.(LNumber); ok1 {\n\t\tif v2, ok2 := rnum.(LNumber); ok2 {\n\t\t\treturn numberArith(L, opcode, LNumber(v1), LNumber(v2))\n\t\t}\n\t}\n\top := L.metaOp2(lhs, rhs, event)\n\tif _, ok := op.(*LFunction); ok {\n\t\tL.reg.Push(op)\n\t\tL.reg.Push(lhs)\n\t\tL.reg.Push(rhs)\n\t\tL.Call(2, 1)\n\t\treturn L.reg.Pop()\n\t}\n", "\top := L.metaOp2(lhs, rhs, event)\n\tif _, ok := op.(*LFunction); ok {\n\t\tL.reg.Push(op)\n\t\tL.reg.Push(lhs)\n\t\tL.reg.Push(rhs)\n\t\tL.Call(2, 1)\n\t\treturn L.reg.Pop()\n\t}\n\tif v1, ok1 := lnum.(LNumber); ok1 {\n\t\tif v2, ok2 := rnum.(LNumber); ok2 {\n\t\t\treturn numberArith(L, opcode, LNumber(v1), LNumber(v2))\n\t\t}\n\t}\n"))
 m("C04", "C04-unm-handler-before-conversion", "R04-events:handler[OP_UNM]:converts-before-looking-for-a-handler", ("vm.go", "\t\t\tif str, ok := unaryv.(LString); ok {\n\t\t\t\t// a string that converts to a number is negated as a number; a handler is looked for only otherwise\n\t\t\t\tif num, err := parseNumber(string(str)); err == nil {\n\t\t\t\t\tunaryv = num\n\t\t\t\t}\n\t\t\t}\n", ""))
+
+m("C17", "C17-paren-restamps-function", "R17-lines:parser:taken-over-function-node-keeps-its-line", ("parse/parser.go", "\t\t\tif _, ok := yyDollar[2].expr.(*ast.FunctionExpr); !ok {\n\t\t\t\t// a function keeps the line of its own keyword (linedefined)\n\t\t\t\tyyVAL.expr.SetLine(yyDollar[1].token.Pos.Line)\n\t\t\t}\n", "\t\t\tyyVAL.expr.SetLine(yyDollar[1].token.Pos.Line)\n"))
 if __name__ == "__main__":
     main()
